@@ -69,7 +69,9 @@ META = {
                 "(rotation, scale), exact (translation) is measured on the generated inputs",
                 "rejection clause near the tolerance: theorems guard_band_accept / guard_band_reject prove that a float evaluation within δ of "
                 "the exact R Rᵀ has the exact verdict outside [tol−δ, tol+δ]; the size of δ (16·eps_dtype, relative band 16·eps/atol) is measured, "
-                "inside the band either verdict is accepted (exactly representable coincidences with the tolerance are decided: reject corpus `exact-tolerance`)",
+                "inside the band either verdict is accepted (exactly representable coincidences with the tolerance are decided: reject corpus `exact-tolerance`); "
+                "check_accepts_near_rotation proves that every matrix within δ of an exact rotation is accepted once 6δ+3δ² ≤ atol and "
+                "6(3δ+3δ²+δ³) ≤ atol+rtol (valid up to rounding ⇒ accepted) — only the value of δ for the float code is measured",
                 "non-mutation of the argument is monitored on every generated call (bit-for-bit, incl. the storage around views), not proved — "
                 "the model consists of pure functions, it has no notion of aliasing",
                 "inside the gimbal band only the third row of the reconstructed matrix is proved (euler_band_third_row_partial) and the exact-lock "
@@ -346,6 +348,10 @@ def prep_roundtrip(ctx: Ctx, case):
     shape = tuple(case["shape"])
     n = int(math.prod(shape))
     M, Xsrc = in_mat(case, dtype)
+    if not bool(torch.isfinite(M).all()):     # matrix() is code under test too: its value is checked before it is sent anywhere
+        i = int((~torch.isfinite(M.reshape((max(n, 1),) + tuple(M.shape[-2:]))).all(dim=-1).all(dim=-1)).nonzero()[0]) if n else -1
+        ctx.fail(case | {"item": i}, f"non-finite result: {src}.matrix() of a valid element is not finite (item {i}, {dtype}, row {case['rows'][i] if i >= 0 else None})")
+        return [], None
     mon = common.PurityMonitor()
     try:
         with warnings.catch_warnings(record=True) as wrn:
@@ -853,6 +859,10 @@ def prep_euler(ctx: Ctx, case):
             return [], None
         Qf = Q.tensor().double().reshape(n, 4)
         Ef = E.double().reshape(n, 3)
+        if not bool(torch.isfinite(Qf).all()):
+            i = int((~torch.isfinite(Qf).all(dim=-1)).nonzero()[0])
+            ctx.fail(case | {"item": i}, f"non-finite result: euler2SO3 returns {Qf[i].tolist()} for the angles {Ef[i].tolist()} ({dtype})")
+            return [], None
         Mq = Q.matrix().double().reshape(n, 3, 3)
         back = Q.euler(eps=case["eeps"]).double().reshape(n, 3)
         for i in range(n):
@@ -870,6 +880,8 @@ def prep_euler(ctx: Ctx, case):
                 tolb = K_ROT * eps / max(cp, 1e-3) * math.pi
                 dd = (back[i] - Ef[i]).abs().tolist()
                 d = max(min(dd[0], abs(dd[0] - 2 * math.pi)), dd[1], min(dd[2], abs(dd[2] - 2 * math.pi)))  # roll/yaw: same angle
+                if not all(math.isfinite(v) for v in dd):
+                    d = math.nan          # python's max() silently drops a NaN that is not its first argument
                 if not d <= tolb:
                     ctx.fail(case, f"inverse: euler(euler2SO3(e)) differs from e by {d:.3e} > {tolb:.3e} at e=({r!r},{pt!r},{y!r}) ({dtype})")
             if n > 1:
@@ -917,6 +929,10 @@ def prep_euler(ctx: Ctx, case):
         return [], None
     Af = A.double().reshape(n, 3)
     Qf = Qt.double().reshape(n, 4)
+    if not bool(torch.isfinite(Af).all()):
+        i = int((~torch.isfinite(Af).all(dim=-1)).nonzero()[0])
+        ctx.fail(case | {"item": i}, f"non-finite result: euler() returns {Af[i].tolist()} for the unit quaternion q={Qf[i].tolist()} ({dtype}, eps={case['eeps']})")
+        return [], None
     Back = p.euler2SO3(A).tensor().double().reshape(n, 4)
     pi_d = float(torch.tensor(math.pi, dtype=D))
     nvar = []
@@ -951,6 +967,8 @@ def prep_euler(ctx: Ctx, case):
             cosp_ = math.sqrt(max(1 - t2 * t2, 0.0))
             tb = 4 * eps * math.pi / max(cosp_, math.sqrt(eps))
             db = max(abs(a - b) for a, b in zip(one, Af[i].tolist()))
+            if not all(math.isfinite(v) for v in one + Af[i].tolist()):
+                db = math.nan
             if not db <= tb:
                 ctx.fail(case, f"batch: euler() of a batch (lshape {shape}) differs from the per-item call by {db:.3e} at item {i}: batched {Af[i].tolist()} vs single {one} "
                                f"for q={Qf[i].tolist()} ({dtype}, eps={case['eeps']})")
@@ -1022,8 +1040,28 @@ def euler_corpus():
     return out
 
 
+def euler_edge_ties():
+    """quaternions (0, y, 0, w) whose FLOAT `t2 = 2wy/(y²+w²)` equals the band edge `1 − eps` bit for bit (found by scanning the
+    neighbouring floats; validated again at run time): the exact tie of `flag = |t2| < 1 − eps`, reachable with representable data.
+    The result must be finite, in range, and equal to one of the two branches (the model is evaluated on both sides of the edge)."""
+    out = []
+    for dtype, eeps, y, w in (("float64", 2e-4, 0.700000357151695, 0.7141424927754256), ("float64", 1e-2, 0.6553367989832941, 0.7553367989832943),
+                              ("float32", 2e-4, 0.7000002861022949, 0.7141424927754256), ("float32", 1e-2, 0.6553367972373962, 0.7553367989832943)):
+        D = U.dt(dtype)
+        yw = torch.tensor([y, w], dtype=torch.float64).to(D)
+        t2 = 2 * (yw[1] * yw[0]) / (yw[0] * yw[0] + yw[1] * yw[1])
+        tie = bool(t2.abs() == torch.tensor(1. - eeps, dtype=D))
+        data = [[0.0, float(yw[0]), 0.0, float(yw[1])], [0.0, -float(yw[0]), 0.0, float(yw[1])], [0.0, float(yw[0]), 0.0, -float(yw[1])],
+                U.to_dtype_exact([_norm([0.1, 0.2, 0.3, 0.9])], dtype)[1][0].tolist()]      # + an ordinary unit quaternion in the same batch
+        for form in ("method_kw", "fn_pos"):
+            out.append({"stream": "euler", "mode": "q2e", "dtype": dtype, "shape": [4], "eeps": eeps, "data": data, "tags": ["corpus", "edge-tie" if tie else "edge"],
+                        "ci": 1, "form": form})
+    return out
+
+
 def run_euler(ctx: Ctx, n):
-    corpus = euler_corpus()
+    corpus = euler_corpus() + euler_edge_ties()
+    ctx.count("euler.corpus.exact-edge-ties", sum(1 for c in corpus if "edge-tie" in c["tags"]))
     ctx.count("euler.corpus.mixed-regime-batches", len(corpus))
     cases = corpus + [gen_euler(ctx.rng, ci) for ci in range(n)]
     run_stream(ctx, cases, prep_euler)
@@ -1044,6 +1082,9 @@ def run_kernel(ctx: Ctx, n):
         if rng.random() < 0.5:
             R = perturb(rng, R, rng.choice(PERT), rng.choice([1e-6, 1e-3, 0.1, 1.0]))
         R = R.to(U.dt(dtype))
+        if not bool(torch.isfinite(R).all()):
+            ctx.fail({"stream": "kernel", "row": rows_of("Sim3", t, q, s)}, f"non-finite result: Sim3.matrix() is not finite ({dtype})")
+            continue
         d = float(torch.det(R))
         sc = float(R.double().norm(dim=-1).prod()) + 1e-300
         lines.append("c11.det " + common.wire_list(R.double().reshape(-1).tolist()))
@@ -1077,6 +1118,9 @@ def run_warn(ctx: Ctx, n):
                 M[3, j] += tol * f * (1 if (ci + i) % 2 else -1)
             mats.append(M)
         M = slice_layout(torch.stack(mats), lay).to(U.dt(dtype))
+        if not bool(torch.isfinite(M).all()):
+            ctx.fail({"stream": "warn", "type": name, "dtype": dtype, "ci": ci}, f"non-finite result: {src}.matrix() is not finite ({dtype})")
+            return
         case = {"stream": "warn", "type": name, "dtype": dtype, "check": check, "rtol": rtol, "atol": atol, "lay": lay, "bad": sorted(bad),
                 "col": j, "factor": f, "M": M.double().tolist(), "ci": ci, "via_from_matrix": via_fm}
         with warnings.catch_warnings(record=True) as wrn:
@@ -1314,6 +1358,9 @@ def run_corpus(ctx: Ctx):
     jc = reject_corpus()
     ctx.count("corpus.reject.cases", len(jc))
     run_stream(ctx, jc, prep_reject)
+    pc = perm_corpus()
+    ctx.count("corpus.perm.batches", len(pc))
+    run_stream(ctx, pc, prep_perm)
     tc = tie_corpus()
     ctx.count("corpus.tie.batches", len(tc))
     run_stream(ctx, tc, prep_tie)
@@ -1383,6 +1430,9 @@ def prep_tie(ctx: Ctx, case):
     M64 = torch.tensor(case["mats"], dtype=torch.float64)
     n = M64.shape[0]
     M = M64.to(U.dt(dtype))
+    if not bool(torch.isfinite(M64).all()):
+        ctx.fail(case | {"mats": None}, f"non-finite result: matrix() produced a non-finite entry while building the tie corpus ({dtype})")
+        return [], None
     c2 = dict(case, check=False, api="direct", shape=[n])
     try:
         Y = call_conv(c2, M.clone()).tensor().double()
@@ -1428,6 +1478,111 @@ def prep_tie(ctx: Ctx, case):
                 ctx.disagree("tie", case | {"mats": [case["mats"][i]], "item": i},
                              f"{name} {dtype} atol={case['atol']} lay {case['lay']} item {i} [{case['tags'][i]}]: code returns {what}: code {Y[i, qs].tolist()} model {want[i, qs].tolist()}")
         ctx.note_case(("tie", name, dtype, case["lay"], case["atol"]), True)
+    return lines, finish
+
+
+
+# ----------------------------------------------------------------------------- exact ties through the public entry point, valid data
+
+def signed_perms():
+    """the 24 proper signed permutation matrices (entries 0, ±1: exactly representable in every dtype)"""
+    import itertools
+    out = []
+    for perm in itertools.permutations(range(3)):
+        for sg in itertools.product((1.0, -1.0), repeat=3):
+            Mx = [[0.0] * 3 for _ in range(3)]
+            for i in range(3):
+                Mx[i][perm[i]] = sg[i]
+            det = (Mx[0][0] * (Mx[1][1] * Mx[2][2] - Mx[1][2] * Mx[2][1]) - Mx[0][1] * (Mx[1][0] * Mx[2][2] - Mx[1][2] * Mx[2][0])
+                   + Mx[0][2] * (Mx[1][0] * Mx[2][1] - Mx[1][1] * Mx[2][0]))
+            if det == 1.0:
+                out.append(Mx)
+    return out
+
+
+def perm_corpus():
+    """VALID inputs with exact coincidences, given as matrices (not through matrix()): every proper signed permutation matrix —
+    R00 == R11 (= 0, ±1), R00 == −R11, R22 ∈ {0, ±1} — times an exactly representable scale (1, 0.5, 4), exact translation, all
+    four converters, three layouts, check=True with the default tolerances AND with rtol = atol = 0 (R Rᵀ = 1 holds exactly, and
+    R22 == atol becomes an exact tie of the first mask for the twelve matrices with R22 = 0)."""
+    out = []
+    Ps = torch.tensor(signed_perms(), dtype=torch.float64)       # (24, 3, 3)
+    n = Ps.shape[0]
+    k = 0
+    for name in U.GROUPS:
+        for dtype in ("float64", "float32"):
+            for (rtol, atol) in ((1e-5, 1e-5), (0.0, 0.0)):
+                for sc in ((1.0,) if name in ("SO3", "SE3") else (1.0, 0.5, 4.0)):
+                    lay = LAYOUTS[k % 3]
+                    k += 1
+                    M4 = torch.zeros(n, 4, 4, dtype=torch.float64)
+                    M4[:, :3, :3] = Ps * sc
+                    M4[:, :3, 3] = torch.tensor([1.5, -2.0, 0.25], dtype=torch.float64)
+                    M4[:, 3, 3] = 1.0
+                    out.append({"stream": "perm", "type": name, "dtype": dtype, "lay": lay, "rtol": rtol, "atol": atol, "scale": sc,
+                                "check": True, "api": ["direct", "from_matrix", "from_matrix_pos"][k % 3], "given": ["check", "rtol", "atol"],
+                                "mats": slice_layout(M4, lay).tolist(), "shape": [n]})
+    return out
+
+
+def prep_perm(ctx: Ctx, case):
+    name, dtype = case["type"], case["dtype"]
+    eps = common.EPS[dtype]
+    M64 = torch.tensor(case["mats"], dtype=torch.float64)
+    n = M64.shape[0]
+    M = M64.to(U.dt(dtype))
+    desc = f"[{name} {dtype} layout {case['lay']} scale {case['scale']} rtol=atol={case['atol']}]"
+    try:
+        with warnings.catch_warnings():
+            warnings.simplefilter("ignore")
+            Yb = call_conv(case, M.clone())
+            Y = Yb.tensor().double()
+            back = Yb.matrix().double()
+    except Exception as e:
+        # exact (scaled) signed permutations are valid for ANY tolerance ≥ 0: for the scaled types the float cube root of det = s³
+        # is exact for s ∈ {1, 0.5, 4} only up to rounding, so with rtol = atol = 0 a refusal there is the documented test, not a defect
+        if name in ("Sim3", "RxSO3") and case["atol"] == 0.0 and isinstance(e, ValueError):
+            ctx.count("perm.scaled-zero-tolerance-refused")
+            return [], None
+        ctx.fail(case | {"mats": None}, f"raises: conversion of the exact signed permutation matrices raised {type(e).__name__}: {str(e)[:100]} {desc}")
+        return [], None
+    if Y.shape != (n, U.GDIM[name]) or not bool(torch.isfinite(Y).all()):
+        i = int((~torch.isfinite(Y).all(dim=-1)).nonzero()[0]) if Y.shape == (n, U.GDIM[name]) else -1
+        ctx.fail(case | {"mats": [case["mats"][i]] if i >= 0 else None, "item": i},
+                 f"non-finite result: the exact rotation matrix {case['mats'][i] if i >= 0 else '?'} (an exact tie of the mask comparisons) is converted to "
+                 f"{Y[i].tolist() if i >= 0 else Y.shape} {desc}")
+        return [], None
+    un = (Y[:, U.QSL[name]].norm(dim=-1) - 1).abs()
+    dm = (back[:, :3, :3] - M64[:, :3, :3]).abs().amax(dim=(-1, -2)) / case["scale"]
+    badm = ~(un <= 8 * eps) | ~(dm <= K_ROT * eps)
+    if U.SIDX[name] is not None:
+        badm |= ~(((Y[:, U.SIDX[name]] - case["scale"]).abs() / case["scale"]) <= K_ROT * eps)
+    if U.TSL[name] is not None and M64.shape[-1] == 4:
+        badm |= (Y[:, U.TSL[name]] != M64[:, :3, 3]).any(dim=-1)
+    if bool(badm.any()):
+        i = int(badm.nonzero()[0])
+        ctx.fail(case | {"mats": [case["mats"][i]], "item": i}, f"perm: the exact rotation matrix {case['mats'][i]} is converted to {Y[i].tolist()} — unit {float(un[i]):.3e}, "
+                                                                 f"matrix of the result differs by {float(dm[i]):.3e} {desc}")
+    lines = [model_line(case, M64, n)]
+
+    def finish(reps):
+        st, toks = common.parse_reply(reps[0])
+        if st != "ok":
+            ctx.disagree("perm", case | {"mats": None}, f"model refuses ({toks}) the exact signed permutation matrices {desc}")
+            return
+        want = torch.tensor([float(common.from_wire(t)) for t in toks], dtype=torch.float64).reshape(n, U.GDIM[name])
+        qs_ = U.QSL[name]
+        signed_ok = name in ("SO3", "SE3") and (dtype == "float64" or case["atol"] == 0.0)     # comparisons act on the caller's exact entries
+        for i in range(n):
+            d1 = float((Y[i, qs_] - want[i, qs_]).abs().max())
+            d2 = float((Y[i, qs_] + want[i, qs_]).abs().max())
+            r22 = float(M64[i, 2, 2])
+            pinned = signed_ok and ((r22 == case["atol"]) or abs(r22) >= 0.1)
+            if not (d1 if pinned else min(d1, d2)) <= K_ROT * eps:
+                ctx.disagree("perm", case | {"mats": [case["mats"][i]], "item": i},
+                             f"{name} item {i}: code {Y[i, qs_].tolist()} vs model {want[i, qs_].tolist()} ({'signed' if pinned else 'sign-free'}) {desc}")
+            ctx.count("perm.items")
+        ctx.note_case(("perm", name, dtype, case["lay"], case["atol"], case["scale"]), True)
     return lines, finish
 
 
@@ -1504,6 +1659,8 @@ def run_history(ctx: Ctx):
         kind, case, arg = calls[i]
         try:
             first.append(do(kind, case, arg.clone()))
+            if not bool(torch.isfinite(first[-1]).all()):
+                ctx.fail(case | {"call_index": i}, f"non-finite result: call #{i} of the history ({kind} {case.get('type', '')} {case['dtype']} lshape {case['shape']}) on valid input")
         except Exception as e:
             first.append(None)
             ctx.fail(case | {"call_index": i}, f"raises: call #{i} of the history ({kind} {case.get('type', '')} {case['dtype']} lshape {case['shape']}) raised "
@@ -2070,6 +2227,9 @@ def run_interleave(ctx: Ctx):
         except Exception as e:
             ctx.fail({"stream": "interleave", "dtype": dtype}, f"raises: an operation under test raised {type(e).__name__} before any interleaving: {str(e)[:100]}")
             continue
+        for (tname, _, _), r0 in zip(tests, ref):
+            if not bool(torch.isfinite(r0).all()):
+                ctx.fail({"stream": "interleave", "dtype": dtype, "test": tname}, f"non-finite result: {tname} on a valid element ({dtype})")
         # the round-trip reference itself must be right (property oracle), so that "unchanged" means "still right"
         others = []
         for name in U.GROUPS:
@@ -2321,9 +2481,9 @@ def run_large(ctx: Ctx):
                         sin / atan2 round differently in the SIMD body and the scalar tail: 1 ulp is not a defect): per block, 4 eps"""
                         a_, b_ = a_.double(), b_.double()
                         if name in U.GROUPS:
-                            bad_ = (a_[:, U.QSL[name]] - b_[:, U.QSL[name]]).abs().amax(-1) > 4 * eps
+                            bad_ = ~((a_[:, U.QSL[name]] - b_[:, U.QSL[name]]).abs().amax(-1) <= 4 * eps)        # NaN-safe: not (err <= tol)
                             if U.SIDX[name] is not None:
-                                bad_ |= ((a_[:, U.SIDX[name]] - b_[:, U.SIDX[name]]).abs() / b_[:, U.SIDX[name]].abs()) > 4 * eps
+                                bad_ |= ~(((a_[:, U.SIDX[name]] - b_[:, U.SIDX[name]]).abs() / b_[:, U.SIDX[name]].abs()) <= 4 * eps)
                             if U.TSL[name] is not None:
                                 bad_ |= (a_[:, U.TSL[name]] != b_[:, U.TSL[name]]).any(-1)
                             return bad_ | ~torch.isfinite(a_).all(-1)
@@ -2415,6 +2575,23 @@ def run_large(ctx: Ctx):
 
 # ----------------------------------------------------------------------------- entry points
 
+def guarded(ctx: Ctx, name, fn, *a):
+    """a stream must never die on a value of the implementation (exit 2 would hide a violation): a non-finite value reaching the
+    wire, or an exception raised inside pypose outside the per-case handlers, becomes a failure of that stream"""
+    import traceback
+    try:
+        fn(ctx, *a)
+    except common.InfraError:
+        raise
+    except Exception as e:
+        tb = traceback.format_exc()
+        if "non-finite on the wire" in str(e) or "/pypose/" in tb:
+            ctx.fail({"stream": name, "exception": repr(e)[:200]}, f"non-finite result / crash: stream `{name}` met a non-finite value or an exception of the implementation "
+                                                                   f"outside a per-case handler: {type(e).__name__}: {str(e)[:120]}")
+        else:
+            raise
+
+
 def run(ctx: Ctx):
     torch.set_num_threads(1)     # tiny tensors everywhere; on the shared box OpenMP spin-waits cost minutes (LU of 65537 3x3 blocks)
     from . import util_lie as _UL
@@ -2422,19 +2599,19 @@ def run(ctx: Ctx):
         return {"euler": lambda o: o.euler(), "matrix": lambda o: o.matrix(),
                 "from_matrix": lambda o: _UL.pp().from_matrix(o.matrix(), o.ltype, check=False).matrix()}
     _UL.persistent_probe(ctx, _reads)
-    run_corpus(ctx)          # deterministic corner corpus first: detection never depends on the seed
-    run_history(ctx)
-    run_modes(ctx)
-    run_mode_orders(ctx)
-    run_interleave(ctx)
-    run_dtypes(ctx)
-    run_large(ctx)
-    run_dispatch(ctx)
-    run_kernel(ctx, ctx.pick(150, 1500))
-    run_roundtrip(ctx, ctx.pick(350, 9000))
-    run_reject(ctx, ctx.pick(320, 6000))
-    run_euler(ctx, ctx.pick(300, 7000))
-    run_warn(ctx, ctx.pick(80, 800))
+    guarded(ctx, "run_corpus", run_corpus)          # deterministic corner corpus first: detection never depends on the seed
+    guarded(ctx, "run_history", run_history)
+    guarded(ctx, "run_modes", run_modes)
+    guarded(ctx, "run_mode_orders", run_mode_orders)
+    guarded(ctx, "run_interleave", run_interleave)
+    guarded(ctx, "run_dtypes", run_dtypes)
+    guarded(ctx, "run_large", run_large)
+    guarded(ctx, "run_dispatch", run_dispatch)
+    guarded(ctx, "run_kernel", run_kernel, ctx.pick(150, 1500))
+    guarded(ctx, "run_roundtrip", run_roundtrip, ctx.pick(350, 9000))
+    guarded(ctx, "run_reject", run_reject, ctx.pick(320, 6000))
+    guarded(ctx, "run_euler", run_euler, ctx.pick(300, 7000))
+    guarded(ctx, "run_warn", run_warn, ctx.pick(80, 800))
 
 
 def search(ctx: Ctx):
